@@ -8,7 +8,7 @@ ID = "C14"
 PROPS_FILE = "theories/Props/C14.v"
 EXTRACT = ("theories/Extract/XC14.v", "c14",
            ["entry_mec_ok", "entry_chrystal_many", "entry_sweep_many", "entry_feret_max", "entry_feret_min_ok", "entry_feret_lower_ok",
-            "entry_fill_model", "entry_fill_check", "entry_fill_hyp", "entry_chrystal_hyp_many", "entry_chrystal_vec"])
+            "entry_fill_model", "entry_fill_check", "entry_fill_hyp", "entry_chrystal_hyp_many", "entry_chrystal_vec", "entry_strict_convex_many", "entry_bf_min_many"])
 PYX = {}
 RULE = ("ROUND 2 additions: 40 % of the cases as dtype/layout variants (label image int8..int64, uint8..uint64; C, Fortran, "
         "strided view, read-only; index list as list, tuple or array of any integer dtype; hull array int16/int32/int64 in "
@@ -623,11 +623,16 @@ def _model(ctx, cases, outs):
             if h:   # hypothesis of theorem C14_chrystal_reaches_certificate on this run's hull lists
                 ctx.count("chrystal_hypothesis_holds" if r == 1 else "chrystal_hypothesis_FAILS(hull not strict / first edge)")
     sw = ctx.run_model("entry_sweep_many", hulls)
+    for hy, hs in zip(ctx.run_model("entry_strict_convex_many", hulls), hulls):
+        for r, h in zip(hy, hs):
+            if len(h) >= 3:   # hypothesis of theorem C14_calipers_max_eq_bruteforce on this run's hulls
+                ctx.count("calipers_hypothesis_holds" if r == 1 else "calipers_hypothesis_FAILS(hull not strictly convex)")
     fl = ctx.run_model("entry_fill_model", [[[l, h] for (l, _, h) in objs[k] if h] if outs[k]["fill"] != "not-run" else []
                                             for k in ok])
     # brute force on the same vertex lists, next to the sweep: a disagreement refutes calipers = brute force
     flat = [h for hs in hulls for h in hs if len(h) >= 1]
     bf = iter(ctx.run_model("entry_feret_max", flat)) if flat else iter([])
+    bfm = ctx.run_model("entry_bf_min_many", hulls)        # Coq's own brute-force minimum (Spec/FeretBrute.v)
     # the vectorised bookkeeping model (global arrays, all objects of the call together)
     # (list-based global arrays: cost ~ objects x rows^2 per pass, so very large calls are left to the per-object model)
     cheap = [len(hs) * sum(len(h) for h in hs) ** 2 <= 2 * 10 ** 7 for hs in hulls]
@@ -635,8 +640,8 @@ def _model(ctx, cases, outs):
     ctx.count("vectorised_model_skipped_large_call", len(cheap) - sum(cheap))
     vr = iter(ctx.run_model("entry_chrystal_vec", [[cases[k]["indexes"], hs] for k, hs, c in zip(ok, hulls, cheap) if c]))
     vec = [next(vr) if c else None for c in cheap]
-    for k, r, w, f, hs, v in zip(ok, ch, sw, fl, hulls, vec):
-        res[k] = {"mec": r, "mec_vec": v, "sweep": w, "fill": f, "bf_max": [next(bf) if len(h) >= 1 else 0 for h in hs]}
+    for k, r, w, f, hs, v, bm in zip(ok, ch, sw, fl, hulls, vec, bfm):
+        res[k] = {"mec": r, "mec_vec": v, "bf_min": bm, "sweep": w, "fill": f, "bf_max": [next(bf) if len(h) >= 1 else 0 for h in hs]}
     return res
 
 
@@ -680,6 +685,9 @@ def compare(case, out, m):
             return "antipodal sweep model ran out of fuel on object %d" % k
         be = _best_edge(hs[k], hs[k]) if len(hs[k]) >= 3 else None
         bmin = be[0] if be else F(0)
+        cm = m["bf_min"][k]
+        if len(hs[k]) >= 3 and (len(cm) != 2 or F(cm[0], cm[1]) != bmin):
+            return "brute-force minimum of Spec/FeretBrute.v (%s) differs from the harness's (%s) on hull %s" % (cm, bmin, hs[k])
         if w[0] != m["bf_max"][k] or F(w[1], w[2]) != bmin:
             return ("REFUTATION of calipers = brute force on hull %s: sweep model (max^2 %s, min^2 %s/%s), brute force "
                     "(max^2 %s, min^2 %s)" % (hs[k], w[0], w[1], w[2], m["bf_max"][k], bmin))
